@@ -7,6 +7,7 @@
 package leveldb
 
 import (
+	"bytes"
 	"fmt"
 	"io"
 	"os"
@@ -154,6 +155,7 @@ func (s *session) recover() (err error) {
 		strict = s.o.GetStrict(opt.StrictManifest)
 
 		jr      = journal.NewReader(reader, dropper{s, fd}, strict, true)
+		buf     = &bytes.Buffer{}
 		rec     = &sessionRecord{}
 		staging = s.stVersion.newStaging()
 	)
@@ -168,7 +170,22 @@ func (s *session) recover() (err error) {
 			return errors.SetFd(err, fd)
 		}
 
-		err = rec.decode(r)
+		// Read the whole record before decoding it. decode stores every field
+		// into rec as soon as it is read, so decoding straight from the journal
+		// would leave the leading fields (journal, next-file and sequence
+		// numbers) of a record whose tail is torn behind in rec even though the
+		// record itself is skipped.
+		buf.Reset()
+		if _, err = buf.ReadFrom(r); err == io.ErrUnexpectedEOF {
+			// Returned by the non-strict journal reader for a damaged or torn
+			// record: skip it.
+			s.logf("manifest error: %v (skipped)", errors.SetFd(err, fd))
+			continue
+		} else if err != nil {
+			return errors.SetFd(err, fd)
+		}
+
+		err = rec.decode(buf)
 		if err == nil {
 			// save compact pointers
 			for _, r := range rec.compPtrs {
